@@ -17,10 +17,27 @@ Record snap := mkSnap {
   sn_inv : bool                               (* all registered crisis invariants hold *)
 }.
 
+(* typed settlement events as (kind, tenant, record id):
+   1 EventRecord, 2 EventCancel of a transaction, 3 EventSettled,
+   4 EventCancel of the end-blocker (record dropped at maturity), 5 EventSetRecipients *)
+Definition iev := (Z * Z * Z)%type.
+Definition iev_eqb (a b : iev) : bool :=
+  (fst (fst a) =? fst (fst b)) && (snd (fst a) =? snd (fst b)) && (snd a =? snd b).
+Definition gev_code (g : gev) : list iev :=
+  match g with
+  | GRecorded t u _ => [(1, t, u)]
+  | GCancelled t u => [(2, t, u)]
+  | GPaid t u _ _ _ _ _ => [(3, t, u)]
+  | GDropped t u => [(4, t, u)]
+  | GFilled t u _ => [(5, t, u)]
+  | _ => []
+  end.
+Definition gev_codes (g : list gev) : list iev := concat (map gev_code g).
+
 Inductive iobs :=
 | IBegin
-| ITx (c : tclass)
-| IEnd (c : tclass) (s : option snap).
+| ITx (c : tclass) (evs : list iev)
+| IEnd (c : tclass) (evs : list iev) (s : option snap).
 
 Record case := mkCase { cs_init : cstate; cs_events : list event; cs_obs : list iobs }.
 
@@ -86,14 +103,18 @@ Fixpoint compare (k : Z) (c : cstate) (es : list event) (os : list iobs) : list 
   match es, os with
   | [], [] => []
   | e :: es', o :: os' =>
-      let '(c1, mo, _) := step c e in
+      let '(c1, mo, g) := step c e in
       let here :=
         match mo, o with
         | OBegin, IBegin => []
-        | OTx a, ITx b => if tclass_eqb a b then [] else [(k, 20)]
-        | OEnd a _, IEnd b (Some sn) =>
-            (if tclass_eqb a b then [] else [(k, 21)]) ++ map (fun f => (k, f)) (cmp_snap c c1 sn)
-        | OEnd a _, IEnd b None => if tclass_eqb a b then [] else [(k, 21)]
+        | OTx a, ITx b evs =>
+            (if tclass_eqb a b then [] else [(k, 20)])
+            ++ (if list_eqb iev_eqb (gev_codes g) evs then [] else [(k, 15)])
+        | OEnd a _, IEnd b evs (Some sn) =>
+            (if tclass_eqb a b then [] else [(k, 21)])
+            ++ (if list_eqb iev_eqb (gev_codes g) evs then [] else [(k, 16)])
+            ++ map (fun f => (k, f)) (cmp_snap c c1 sn)
+        | OEnd a _, IEnd b _ None => if tclass_eqb a b then [] else [(k, 21)]
         | _, _ => [(k, 99)]
         end in
       match here with
@@ -117,4 +138,4 @@ Fixpoint state_after (c : cstate) (es : list event) (k : nat) : cstate :=
   | _, [] => c
   end.
 Definition snap_at (cs : case) (k : nat) : option snap :=
-  match nth_error (cs_obs cs) k with Some (IEnd _ s) => s | _ => None end.
+  match nth_error (cs_obs cs) k with Some (IEnd _ _ s) => s | _ => None end.
